@@ -323,9 +323,11 @@ impl World {
         };
         let has_size_arg = matches!(op, Op::WithCapacity { .. } | Op::Reserve { .. } | Op::ShrinkTo { .. })
             || matches!(op, Op::Extend { it, .. } | Op::Collect { it, .. } if it.hint.is_some());
-        // ---- a refused allocator request is reported (Err or the documented panic), not swallowed. The only calls
-        // that may go on after a refusal are the iterator-driven ones, whose up-front reservation is a hint.
-        if matches!(real, Outcome::Ok(_)) && refusals > 0 && !matches!(op, Op::Extend { .. } | Op::Collect { .. }) {
+        // ---- a refused allocator request is reported (Err or the documented panic), not swallowed. Checked for the
+        // calls whose very purpose is the request (reserve, shrink, with_capacity). Elsewhere a refused request may
+        // have been optional (the up-front reservation of extend / collect is a hint; a conversion may try to trim
+        // its result): if it was needed, the value or the capacity clauses report what went wrong instead.
+        if matches!(real, Outcome::Ok(_)) && refusals > 0 && matches!(op, Op::Reserve { .. } | Op::ShrinkTo { .. } | Op::ShrinkToFit { .. } | Op::WithCapacity { .. }) {
             let clause = if fault_refusals > 0 { "C05.refusal_unreported" } else { "C06.refusal_unreported" };
             ctx.eval(clause);
             f.push(Failure::new(
